@@ -34,11 +34,6 @@ def _pair(h, shortcuts=False):
     # relative angle >= 1e-4 rad; for the functions with allclose shortcuts the quick tier uses >= 0.09 rad (d^2 <= 0.998)
     # so that refuting the shortcut sides stays cheap; the thorough tier uses the full range
     h.assume(h.le(d * d, 0.998 if (shortcuts and h.tier == 'quick') else COS2_MIN))
-    if shortcuts and h.tier == 'quick':
-        # quick tier: pairs whose scalar parts differ by >= 0.01 in both sign conventions, which keeps the allclose(+-p, q)
-        # shortcut off the path by linear reasoning (the thorough tier has no such restriction)
-        h.assume(h.ge(p[0] - q[0], 0.01) | h.le(p[0] - q[0], -0.01))
-        h.assume(h.ge(p[0] + q[0], 0.01) | h.le(p[0] + q[0], -0.01))
     if shortcuts:
         dm = sum((p[i] - q[i]) ** 2 for i in range(4))
         dp = sum((p[i] + q[i]) ** 2 for i in range(4))
@@ -126,19 +121,69 @@ def quat_invariance(h):
         h.check(f'|s p| == 1 ({tag})', h.is_unit(a) & h.is_unit(b))
 
 
-@harness('C18/angular_distance', tiers=('thorough',), functions=[FM + 'angular_distance', 'ahrs.common.dcm:DCM.log'], max_paths=32)
+@harness('C18/angular_distance', functions=[FM + 'angular_distance', 'ahrs.common.dcm:DCM.log'], max_paths=16)
 def angular_distance(h):
-    """angular_distance(R1, R2)^2 == 2 t^2 with cos t = 2d^2 - 1, for t >= 1e-4"""
+    """angular_distance(R1, R2)^2 == 2 t^2 with t the code's own arccos atom and cos t == 2d^2 - 1 (so t is the relative angle)"""
     p, q, d = _pair(h)
     Rp, Rq = rot.R_of_q(p), rot.R_of_q(q)
     h.lemma_rotation(Rp @ Rq.T)
+    h.lemma('trace(R1 R2^T) == 4 d^2 - 1', h.eq((Rp @ Rq.T).trace(), 4.0 * d * d - 1.0))
     m = metrics.angular_distance(Rp, Rq)
     h.out('angular_distance', m)
     h.check('angular_distance >= 0', h.ge(m, 0.0))
     tr = 4.0 * d * d - 1.0
     # KF-C18-angular-distance (= the DCM.log shortcut of KF-C10-dcm-log): zero for relative angles up to ~7.7e-3 rad
     small = h.kf('KF-C18-angular-distance', h.ge(tr, 3.0 - 3.001e-5))
-    h.check('angular_distance > 0 for distinct rotations (outside KF-C18-angular-distance)', small | h.gt(m, 0.0))
-    h.check('inside the shortcut band the result is exactly 0 (known defect only)', h.lt(tr, 3.0 - 2.999e-5) | h.eq(m, 0.0))
-    m2 = metrics.angular_distance(Rq, Rp)
-    h.check('symmetric', h.eq(m2 * m2, m * m))
+    if h.sym:
+        from symnp.core import CTX, SR, Lin, PiPoly
+        from symnp import trig
+        from fractions import Fraction as Fr
+        theta = None
+        for n, at in CTX.atoms.items():
+            if n.startswith('acos_'):
+                theta = SR(at['var'], Lin({n: PiPoly({0: Fr(1)})}, PiPoly()))
+        if theta is not None:
+            ct, st = trig.cossin(theta)
+            h.check('cos(t) == 2 d^2 - 1 for the angle t the code extracted', h.eq(SR(ct), 2.0 * d * d - 1.0))
+            h.check('angular_distance^2 == 2 t^2 (outside KF-C18-angular-distance)', small | h.eq(m * m, 2.0 * theta * theta))
+        else:
+            h.check('shortcut path only inside the known band', h.ge(tr, 3.0 - 3.001e-5))
+    else:
+        t = np.arccos(np.clip(2.0 * d * d - 1.0, -1.0, 1.0))
+        h.check('angular_distance^2 == 2 t^2 (outside KF-C18-angular-distance)', small | h.eq(m * m, 2.0 * t * t, tol=1e-5))
+    h.check('inside the shortcut band the result is exactly 0 (known defect only)', h.lt(tr, 3.0 - 2.999e-5) | h.eq(m * m, 0.0))
+
+
+@harness('C18/quaternion-metrics.batch', functions=[FM + 'qdist', FM + 'qeip', FM + 'qcip', FM + 'qad'], max_paths=32, bounds='N=2')
+def quat_metrics_batch(h):
+    """N-row branches of qdist / qeip / qcip / qad: closed forms in d per row, including rows with negative p.q"""
+    p, q = h.unit_quat('p'), h.unit_quat('q')
+    d = _dot(p, q)
+    h.assume(h.le(d * d, 0.998))
+    sq = 0.0
+    for i in range(4):
+        for j in range(i + 1, 4):
+            sq = sq + (p[i] * q[j] - p[j] * q[i]) ** 2
+    h.lemma('Lagrange: 1 - (p.q)^2 == sum (p_i q_j - p_j q_i)^2', h.eq(1.0 - d * d, sq))
+    sg = h.split_signs([d], 'd')[0] if h.sym else (1 if d >= 0 else -1)
+    absd = sg * d
+    A, B = np.array([p, -p]), np.array([q, q])          # second row: the same pair with one sign flipped
+    m = metrics.qdist(A.copy(), B.copy())
+    e = metrics.qeip(A.copy(), B.copy())
+    h.out('qdist', m)
+    for i in range(2):
+        h.check(f'qdist row{i}^2 == 2(1 - |d|)', h.eq(m[i] * m[i], 2.0 * (1.0 - absd)) & h.ge(m[i], 0.0))
+        h.check(f'qeip row{i} == 1 - |d|', h.eq(e[i], 1.0 - absd))
+    c = metrics.qcip(A.copy(), B.copy())
+    a_ = metrics.qad(A.copy(), B.copy())
+    for i in range(2):
+        if h.sym:
+            from symnp import trig
+            from symnp.core import SR
+            cc, sc = trig.cossin(c[i])
+            h.check(f'cos(qcip row{i}) == |d|', h.eq(SR(cc), absd))
+            ca, sa = trig.cossin(a_[i])
+            h.check(f'cos(qad row{i}) == 2d^2 - 1', h.eq(SR(ca), 2.0 * d * d - 1.0))
+        else:
+            h.check(f'cos(qcip row{i}) == |d|', h.eq(np.cos(c[i]), absd))
+            h.check(f'cos(qad row{i}) == 2d^2 - 1', h.eq(np.cos(a_[i]), 2.0 * d * d - 1.0))
